@@ -59,9 +59,9 @@ func TestVerif(t *testing.T) {
 	log.DefaultLogger.Out = log.NopOutput{}
 	// remote and lmtp histories open listeners and TCP connections; their
 	// thorough counts are bounded by the machine's shared ephemeral port range.
-	nRemote := r.N(1000, 30000)
-	nLMTP := r.N(600, 15000)
-	nPipe := r.N(600, 60000)
+	nRemote := r.N(5000, 30000)
+	nLMTP := r.N(3000, 15000)
+	nPipe := r.N(4000, 60000)
 	for i := 0; i < nRemote; i++ {
 		idx := baseRemote + i
 		r.Run(idx, fmt.Sprintf("remote-%d", i), func(c *rep.Case) { runRemote(t, r, c, idx) })
